@@ -22,7 +22,9 @@ func init() {
 			"PType 0/non-0, header-only/with body, arbitrary session id / system bytes / status bytes, favouring state-changing prefixes; for the active role also answers/rejects/duplicates of the library's own open " +
 			"Select transaction; written one-frame-per-segment or coalesced; optionally a second TCP connection to the passive endpoint). A fresh real hsmsss connection per case; the scripted peer reads the exact FIFO " +
 			"outbound frame list fenced by a Linktest barrier. Oracle = reference E37 responder state machine (c08Model). distinct = hash(config, frame sequence); non-trivial = the sequence contains at least one " +
-			"state-changing frame (select/deselect/separate) or at least one frame that must be rejected.",
+			"state-changing frame (select/deselect/separate) or at least one frame that must be rejected. Plus the complete product role x equip x {Select,Deselect,Linktest}.rsp x status {0,1,3} x timing " +
+			"{library sender parked right behind its write, sender already waiting for the reply} of a control response carrying the system bytes of a DATA transaction the library has open: exactly one Reject.req " +
+			"reason 3, link stays Selected, the genuine secondary still completes the transaction.",
 		Assumptions: []string{
 			"the responder table in c08Model is the reading of SEMI E37/E37.1 given in the property statement",
 			"a duplicate Select.rsp that races the closing of the library's own Select transaction may be either discarded or answered Reject(3); both are accepted for that one frame",
@@ -32,7 +34,7 @@ func init() {
 			return []fw.Phase{{Name: "responder", Race: true, Shards: 16, Timeout: tierDur(tier, 6, 40), HangIsViolation: true}}
 		},
 		Worker:         c08Worker,
-		RequiredEvents: []string{"sequences", "frames_sent", "frames_compared", "rejects_expected", "selects", "deselects", "second_conn_refused"},
+		RequiredEvents: []string{"sequences", "frames_sent", "frames_compared", "rejects_expected", "selects", "deselects", "second_conn_refused", "open_data_tx_cases", "open_data_tx_completed_by_secondary"},
 	})
 }
 
@@ -270,6 +272,20 @@ func c08Worker(env *fw.Env) {
 		}
 		c08One(env, i)
 	}
+	// control responses that collide with a data transaction the LIBRARY has open (c08_tx.go): the complete
+	// product role x equip x response type x status x timing = 72 cases, repeated in the thorough tier
+	for rep := 0; rep < env.Pick(1, 6); rep++ {
+		for k := 0; k < 72; k++ {
+			i := total + int64(rep*72+k)
+			if !env.Mine(i) || !env.Want(i) {
+				continue
+			}
+			if env.Stop() {
+				return
+			}
+			c08OpenDataTx(env, i, k)
+		}
+	}
 }
 
 func c08One(env *fw.Env, i int64) {
@@ -420,12 +436,17 @@ func c08One(env *fw.Env, i int64) {
 		second = c2.Start()
 		_ = second.Send(peer.SelectReq(c08Session, 0x0C0C0C0C))
 	}
-	if m.ended && cs.SecondAt >= len(sent)-1 {
+	if m.ended && cs.SecondAt >= len(sent)-trailing-1 {
 		cs.SecondAt = -1 // the session ends with the last frame: a later dial could reach the NEXT generation's listener
 	}
 	if cs.SecondAt >= 0 && cs.SecondAt < len(sent) {
 		if err := write(sent[:cs.SecondAt]); err == nil {
 			openSecond()
+			if m.ended && second != nil {
+				// the rest of the sequence ends the session: let the refusal happen while the session is still live
+				// (otherwise the accept loop may see the second connection only after the end, as the NEXT session)
+				second.WaitClosed(5 * time.Second)
+			}
 			err = write(sent[cs.SecondAt:])
 			_ = err
 		}
